@@ -15,6 +15,7 @@ import (
 	"os"
 
 	incr "github.com/wcharczuk/go-incr"
+	"github.com/wcharczuk/go-incr/incrutil"
 	"verifharness/internal/hx"
 )
 
@@ -219,6 +220,102 @@ func setFromUpdateHandler(par, rounds int, rng *hx.Rand) (int, string) {
 	return passes, ""
 }
 
+// a memoized bind created inside another bind's function, under an upstream bind whose
+// right-hand side changes depth: cached subgraphs of unused keys stay parked in the outer
+// bind's scope while heights are adjusted around them. Twin: the same program with plain Bind.
+func memoNestedInBind(par, rounds int, rng *hx.Rand) (int, string) {
+	passes := 0
+	type world struct {
+		g        *incr.Graph
+		x, sel   incr.VarIncr[int]
+		key      incr.VarIncr[int]
+		obs      incr.ObserveIncr[int]
+		memoized bool
+	}
+	inc := func(v int) int { return v + 1 }
+	build := func(memoized bool) *world {
+		w := &world{g: newGraph(par), memoized: memoized}
+		g := w.g
+		w.x, w.sel, w.key = incr.Var(g, 1), incr.Var(g, 0), incr.Var(g, 0)
+		upstream := incr.Bind(g, w.sel, func(bs incr.Scope, s int) incr.Incr[int] {
+			var n incr.Incr[int] = incr.Return(bs, 7)
+			if s > 0 {
+				n = w.x
+			}
+			for i := 0; i < s; i++ {
+				n = incr.Map(bs, n, inc)
+			}
+			return n
+		})
+		outer := incr.Bind(g, upstream, func(bs incr.Scope, up int) incr.Incr[int] {
+			rhs := func(s incr.Scope, key int) incr.Incr[int] {
+				if key%3 == 2 {
+					return incr.Map2(s, w.x, incr.Map(s, w.x, inc), func(a, b int) int { return a + b + 100*key + up })
+				}
+				return incr.Map(s, w.x, func(v int) int { return v + 100*key + up })
+			}
+			if memoized {
+				return incrutil.BindMemoized(bs, w.key, rhs)
+			}
+			return incr.Bind(bs, w.key, rhs)
+		})
+		w.obs = incr.MustObserve(g, outer)
+		return w
+	}
+	for r := 0; r < rounds; r++ {
+		memo, plain := build(true), build(false)
+		x, sel, key := 1, 0, 0
+		px, psel, pkey := x, sel, key
+		for step := 0; step < 14; step++ {
+			for _, w := range []*world{plain, memo} {
+				// only what changed: a Set of an unchanged plain var re-runs the binds below it,
+				// which would rebuild the memoized bind (and its cache) in every pass
+				if x != px {
+					w.x.Set(x)
+				}
+				if sel != psel {
+					w.sel.Set(sel)
+				}
+				if key != pkey {
+					w.key.Set(key)
+				}
+				if err := pass(w.g, par); err != nil {
+					return passes, fmt.Sprintf("round %d step %d (x=%d depth=%d key=%d): the pass failed on the %s graph: %.160s", r, step, x, sel, key, map[bool]string{true: "BindMemoized", false: "Bind"}[w.memoized], err.Error())
+				}
+				passes++
+			}
+			up := 7
+			if sel > 0 {
+				up = x + sel
+			}
+			want := x + 100*key + up
+			if key%3 == 2 {
+				want = x + x + 1 + 100*key + up
+			}
+			if plain.obs.Value() != want || memo.obs.Value() != want {
+				return passes, fmt.Sprintf("round %d step %d (x=%d depth=%d key=%d): Bind reads %d, BindMemoized reads %d, from scratch %d", r, step, x, sel, key, plain.obs.Value(), memo.obs.Value(), want)
+			}
+			px, psel, pkey = x, sel, key
+			if rng.Chance(1, 2) {
+				key = rng.Intn(4)
+			}
+			if rng.Chance(1, 3) {
+				x = rng.Intn(50)
+			}
+			if rng.Chance(1, 3) {
+				sel = rng.Intn(4)
+			}
+		}
+		for _, w := range []*world{plain, memo} {
+			w.obs.Unobserve(ctx)
+			if n := incr.ExpertGraph(w.g).NumNodes(); n != 0 {
+				return passes, fmt.Sprintf("round %d: %d nodes left after the only observer was released (memoized=%v)", r, n, w.memoized)
+			}
+		}
+	}
+	return passes, ""
+}
+
 // one height block: some nodes fail (error or panic) and re-queue themselves while their
 // siblings succeed and queue children
 func failingSiblings(par, rounds int, rng *hx.Rand) (int, string) {
@@ -389,6 +486,7 @@ func main() {
 		{"var-in-bind-scope-set-by-sibling", "a var created inside a bind scope is written (deferred Set) by a node function of its own height block", varInScope},
 		{"var-in-bind-scope-set-from-a-lower-block", "a queued var created inside a bind scope is written (deferred Set) by a node function of a lower height block", varInScopeSetFromBelow},
 		{"writes-from-update-handlers", "a var written mid-pass by a node function and afterwards by an update handler of the same pass; Updates from handlers", setFromUpdateHandler},
+		{"memoized-bind-nested-in-a-bind", "BindMemoized created inside a bind's function under an upstream bind of changing depth, against its plain-Bind twin", memoNestedInBind},
 		{"failing-siblings-queue-children", "nodes of one height block fail or panic and re-queue themselves while siblings queue children", failingSiblings},
 		{"fold-many-inputs", "UnorderedArrayFold with repeated inputs, most inputs changing in one pass", foldManyInputs},
 		{"binds-sharing-outer-nodes", "six binds of one height switch between shared outer nodes of different heights in one pass", bindsSharingOuter},
